@@ -62,69 +62,82 @@ Section WithExpr.
                      (pair (opt (char 38)) (delimited (char 40) (comma_expressions E) (char 41))) ]))
       spacelike.
 
-  Definition texprF (ln : nat) (self0 : tnt -> parser texpr) (x : tnt) : parser texpr := fun i0 =>
-    let te : parser texpr := fun j => self0 TE j in
-    let if2 : parser texpr := fun j => self0 IF2 j in
-    let template_block : parser (list texpr) :=
+  (* what follows the '@' decides the construct; "" = a plain @expression *)
+  Definition dispatch : parser bytes :=
+    preceded (char 64)
+      (alt [ tag (b "*"); tag (b ":"); tag (b "@"); tag (b "{"); tag (b "}"); tag (b "(");
+             terminated (alt [tag (b "if"); tag (b "for"); tag (b "match")]) (tag (b " "));
+             value [] (tag (b "")) ]).
+
+  Section Branches.
+    Variable ln : nat.
+    Variables te if2 : parser texpr.
+    Definition template_block : parser (list texpr) :=
       preceded (char 123)
-        (pmap fst (many_till (context (b "Error in expression starting here:") te) (char 125))) in
-    let template_argument : parser targ :=
+        (pmap fst (many_till (context (b "Error in expression starting here:") te) (char 125))).
+    Definition template_argument : parser targ :=
       alt [ pmap ABody (delimited (char 123) (many0 te) (terminated (char 125) spacelike));
-            pmap ARust expression ] in
-    match x with
-    | IF2 =>
-      context (b "Error in conditional expression:")
-        (pmap (fun '(c, body, els) => TIf c body els)
-           (pair (pair (delimited spacelike (cond_expression ln) spacelike) template_block)
-                 (opt (preceded (delimited spacelike (tag (b "else")) spacelike)
-                                (alt [ preceded (tag (b "if")) (pmap (fun e => [e]) if2);
-                                       template_block ]))))) i0
-    | TE =>
-      match opt (preceded (char 64)
-                   (alt [ tag (b "*"); tag (b ":"); tag (b "@"); tag (b "{"); tag (b "}"); tag (b "(");
-                          terminated (alt [tag (b "if"); tag (b "for"); tag (b "match")]) (tag (b " "));
-                          value [] (tag (b "")) ])) i0 with
-      | Err e => Err e
-      | Abort k => Abort k
-      | Ok None i =>
-          pmap TText (map_res (is_not (b "@{}")) to_str) i
-      | Ok (Some t) i =>
-          if beq t (b ":") then
-            pmap (fun '(name, args) => TCall name args)
-              (pair rust_name
-                    (delimited (char 40)
-                               (separated_list0 (terminated (tag (b ",")) spacelike) template_argument)
-                               (char 41))) i
+            pmap ARust expression ].
+    Definition call_branch : parser texpr :=
+      pmap (fun '(name, args) => TCall name args)
+        (pair rust_name
+              (delimited (char 40)
+                         (separated_list0 (terminated (tag (b ",")) spacelike) template_argument)
+                         (char 41))).
+    Definition for_branch : parser texpr :=
+      pmap (fun '(name, expr, body) => TFor name expr body)
+        (pair (pair for_variable
+                    (delimited (terminated (context (b "Expected ""in""") (tag (b "in"))) spacelike)
+                               (context (b "Expected iterable expression") loop_expression)
+                               spacelike))
+              (context (b "Error in loop block:") template_block)).
+    Definition match_branch : parser texpr :=
+      context (b "Error in match expression:")
+        (pmap (fun '(expr, arms) => TMatch expr arms)
+           (pair (delimited spacelike expression spacelike)
+                 (preceded (char 123)
+                    (pmap fst
+                       (many_till
+                          (context (b "Error in match arm starting here:")
+                             (pair (delimited spacelike expression spacelike)
+                                   (preceded (terminated (tag (b "=>")) spacelike) template_block)))
+                          (preceded spacelike (char 125))))))).
+    Definition paren_branch : parser texpr :=
+      pmap (fun e => TExpr (b "(" ++ e ++ b ")")%list) (terminated (expr_inside_parens E) (tag (b ")"))).
+    Definition text_branch : parser texpr := pmap TText (map_res (is_not (b "@{}")) to_str).
+
+    Definition te_branch (o : option bytes) : parser texpr :=
+      match o with
+      | None => text_branch
+      | Some t => fun i =>
+          if beq t (b ":") then call_branch i
           else if beq t (b "@") then Ok (TText (b "@")) i
           else if beq t (b "{") then Ok (TText (b "{")) i
           else if beq t (b "}") then Ok (TText (b "}")) i
           else if beq t (b "*") then value TComment comment_tail i
           else if beq t (b "if") then if2 i
-          else if beq t (b "for") then
-            pmap (fun '(name, expr, body) => TFor name expr body)
-              (pair (pair for_variable
-                          (delimited (terminated (context (b "Expected ""in""") (tag (b "in"))) spacelike)
-                                     (context (b "Expected iterable expression") loop_expression)
-                                     spacelike))
-                    (context (b "Error in loop block:") template_block)) i
-          else if beq t (b "match") then
-            context (b "Error in match expression:")
-              (pmap (fun '(expr, arms) => TMatch expr arms)
-                 (pair (delimited spacelike expression spacelike)
-                       (preceded (char 123)
-                          (pmap fst
-                             (many_till
-                                (context (b "Error in match arm starting here:")
-                                   (pair (delimited spacelike expression spacelike)
-                                         (preceded (terminated (tag (b "=>")) spacelike) template_block)))
-                                (preceded spacelike (char 125))))))) i
-          else if beq t (b "(") then
-            pmap (fun e => TExpr (b "(" ++ e ++ b ")")%list)
-                 (terminated (expr_inside_parens E) (tag (b ")"))) i
-          else if beq t [] then
-            pmap TExpr expression i
+          else if beq t (b "for") then for_branch i
+          else if beq t (b "match") then match_branch i
+          else if beq t (b "(") then paren_branch i
+          else if beq t [] then pmap TExpr expression i
           else Abort APanic     (* unreachable!() at templateexpression.rs:258 *)
-      end
+      end.
+
+    Definition if2_body : parser texpr :=
+      context (b "Error in conditional expression:")
+        (pmap (fun '(c, body, els) => TIf c body els)
+           (pair (pair (delimited spacelike (cond_expression ln) spacelike) template_block)
+                 (opt (preceded (delimited spacelike (tag (b "else")) spacelike)
+                                (alt [ preceded (tag (b "if")) (pmap (fun e => [e]) if2);
+                                       template_block ]))))).
+  End Branches.
+
+  Definition texprF (ln : nat) (self0 : tnt -> parser texpr) (x : tnt) : parser texpr := fun i0 =>
+    let te : parser texpr := fun j => self0 TE j in
+    let if2 : parser texpr := fun j => self0 IF2 j in
+    match x with
+    | IF2 => if2_body ln te if2 i0
+    | TE => bind (opt dispatch) (te_branch te if2) i0
     end.
 
   Fixpoint texpr_gram (ln n : nat) : tnt -> parser texpr :=
